@@ -44,7 +44,10 @@ theorem next_PA {n : Int} (c : Ctx) (h : PA n c) : OutcomeP (PA n) (opNext c) :=
   unfold opNext
   split
   · exact h
-  · split <;> (try split) <;> exact h
+  · split
+    · show AssocOK n _
+      simp only [setMap_seg, setIs_seg, markHighpassed_seg]; exact h
+    · exact h
 
 /-- an update that keeps the three association fields -/
 theorem AssocOK.updKeep {n : Int} {s : Seg} (h : AssocOK n s) (i : Nat) (f : Slot → Slot)
@@ -71,18 +74,20 @@ theorem AssocOK.bef {n : Int} {s : Seg} (h : AssocOK n s) (j : Nat) : 0 ≤ (s.g
 theorem AssocOK.aft {n : Int} {s : Seg} (h : AssocOK n s) (j : Nat) : 0 ≤ (s.get j).after ∧ (s.get j).after < n := ⟨(h.1 j).2.2.1, (h.1 j).2.2.2.1⟩
 theorem AssocOK.orig {n : Int} {s : Seg} (h : AssocOK n s) (j : Nat) : 0 ≤ (s.get j).original ∧ (s.get j).original < n := ⟨(h.1 j).2.2.2.2.1, (h.1 j).2.2.2.2.2⟩
 
-theorem unlink_assoc {n : Int} {s : Seg} (h : AssocOK n s) (i : Nat) : AssocOK n (s.unlink i) := by
-  unfold Seg.unlink
-  have h2 : AssocOK n (match (s.get i).prev with
-      | some p => s.upd p fun sl => sl.setNext (s.get i).next
-      | none => s.setFirst (s.get i).next) := by
-    split
-    · exact h.updKeep _ _ (fun _ => ⟨rfl, rfl, rfl⟩)
-    · exact h.setFirst _
-  simp only []
+theorem setNextOf_assoc {n : Int} {s : Seg} (h : AssocOK n s) (p v : Option Nat) : AssocOK n (s.setNextOf p v) := by
+  unfold Seg.setNextOf
   split
-  · exact h2.updKeep _ _ (fun _ => ⟨rfl, rfl, rfl⟩)
-  · exact h2.setLast _
+  · exact h.updKeep _ _ (fun _ => ⟨rfl, rfl, rfl⟩)
+  · exact h.setFirst _
+
+theorem setPrevOf_assoc {n : Int} {s : Seg} (h : AssocOK n s) (p v : Option Nat) : AssocOK n (s.setPrevOf p v) := by
+  unfold Seg.setPrevOf
+  split
+  · exact h.updKeep _ _ (fun _ => ⟨rfl, rfl, rfl⟩)
+  · exact h.setLast _
+
+theorem unlink_assoc {n : Int} {s : Seg} (h : AssocOK n s) (i : Nat) : AssocOK n (s.unlink i) :=
+  setPrevOf_assoc (setNextOf_assoc h _ _) _ _
 
 theorem unparent_same (s : Seg) (i : Nat) : SameT s (s.unparent i) := by
   unfold Seg.unparent
@@ -254,7 +259,6 @@ theorem tempCopy_PA {n : Int} (c : Ctx) (h : PA n c) : OutcomeP (PA n) (opTempCo
   split
   · rename_i k seg i heq _
     have h1 := newSlot_assoc h heq
-    simp only []
     split
     · exact h1.upd _ _ (h1.1 i)
     · trivial
